@@ -139,6 +139,8 @@ def _run_stage(pool, cfg, M, seed, nproc):
 def run_mc(ctx, sub, configs, M1, name_of=lambda c: c['sim'], nproc=16):
     """For each configuration compare the law of the node-state vector at cfg['times'] with the master equation."""
     from .runner import digest
+    if ctx.shard_id != 0:
+        return
     mpctx = multiprocessing.get_context('fork')
     with mpctx.Pool(nproc) as pool:
         for ci, cfg in enumerate(configs):
